@@ -196,6 +196,15 @@ def check(ctx: Ctx):
     n1 = empty.check_label_callers(ctx)
     n2 = empty.check_filtered_indices(ctx)
     n3 = empty.check_cdist(ctx)
+    empty.check_optional_dim(ctx)
+    # the enumeration of boundary cells in the periodic merge must stay inside every transverse axis (IndexError otherwise)
+    from ..rules import locate
+
+    sub0 = Ctx(ctx.model, ctx.prop, ctx.tier)
+    locate.check_merge(sub0)
+    ctx.findings.extend(f for f in sub0.findings if f.rule == "MERGE" and f.site.endswith(":boundary"))
+    ctx.functions |= sub0.functions
+    ctx.expect("MERGE", 1)
     for cname in render.RENDERERS:
         render.check_renderer(ctx, cname, rules=("DIMGUARD", "WIDTH"))
     render.check_polar(ctx, rules=("DIV0",))
@@ -215,7 +224,7 @@ def check(ctx: Ctx):
     ctx.expect("METRIC", 2)
     ctx.expect("WIDTH", 4)
     ctx.expect("TOTAL", 1)
-    ctx.expect("EMPTY", 6)
+    ctx.expect("EMPTY", 9)
     ctx.expect("ARITY", 3)
     ctx.expect("DIV0", 1)
     ctx.expect("DIMGUARD", 3)
